@@ -513,6 +513,29 @@ pub fn run_random(rec: &mut Rec, seed: u64, run: u64, nops: usize, stable: bool)
                 ev.insert("dpre".into(), json!(dpre));
                 ev.insert("dpost".into(), json!(dpost));
             }
+            // ---------------------------------------------------------------- the three pause switches (always sent as a triple)
+            86..=91 if r.gen_bool(0.35) => {
+                let cur: white_whale_std::pool_network::pair::ConfigResponse = p.w.query(&p.pair, &QueryMsg::Config {}).unwrap();
+                let flip = |r: &mut StdRng, now: bool| -> bool { match r.gen_range(0..10) { 0..=4 => now, 5..=7 => true, _ => false } };
+                let (d, wd, sw) = (flip(&mut r, cur.feature_toggle.deposits_enabled), flip(&mut r, cur.feature_toggle.withdrawals_enabled), flip(&mut r, cur.feature_toggle.swaps_enabled));
+                let by_owner = r.gen_bool(0.85);
+                let sender = if by_owner { p.w.owner.clone() } else { p.user(ui) };
+                let msg = white_whale_std::pool_network::factory::ExecuteMsg::UpdatePairConfig {
+                    pair_addr: p.pair.to_string(), owner: None, fee_collector_addr: None, pool_fees: None,
+                    feature_toggle: Some(white_whale_std::pool_network::pair::FeatureToggle { withdrawals_enabled: wd, deposits_enabled: d, swaps_enabled: sw }),
+                };
+                let dpre = p.w.digest();
+                let rs = p.w.exec(&sender, &p.factory.clone(), &msg, &[]);
+                let dpost = p.w.digest();
+                ev.insert("ev".into(), json!("settog"));
+                ev.insert("actor".into(), json!(if by_owner { "owner" } else { USERS[ui] }));
+                ev.insert("args".into(), json!({"d": d, "w": wd, "s": sw}));
+                ev.insert("res".into(), json!(rs.tag()));
+                ev.insert("err".into(), jerr(&rs.err()));
+                ev.insert("out".into(), json!({}));
+                ev.insert("dpre".into(), json!(dpre));
+                ev.insert("dpost".into(), json!(dpost));
+            }
             // ---------------------------------------------------------------- set fees (owner -> factory -> pair)
             86..=91 => {
                 const ONE: u128 = 1_000_000_000_000_000_000;
@@ -626,6 +649,9 @@ pub fn run_random(rec: &mut Rec, seed: u64, run: u64, nops: usize, stable: bool)
                 ev.insert("dpost".into(), json!(dpost));
             }
         }
+        // was the call refused as "Operation disabled" (a pause switch) ?
+        let dis = ev.get("err").and_then(|e| e.as_str()).map(|e| e.contains("Operation disabled")).unwrap_or(false);
+        ev.insert("disabled".into(), json!(dis));
         ev.insert("obs".into(), p.obs());
         rec.emit(Value::Object(ev));
     }
